@@ -25,9 +25,9 @@ def corpus(tier, rng):
     q = tier == "quick"
     specs = [dict(sp, hw=True, family=sp["family"] + "-metrics") for sp in families.accel_specs(stripped=False, names=["sigma", "extensor", "outerspace", "gamma"])]
     specs += families.accel_specs(stripped=True, names=["demo"])
-    specs += sample(hwfamily.gen_hw, rng, 3 if q else 20)
-    specs += sample(families.gen_occ, rng, 3 if q else 20) + sample(families.gen_shape, rng, 2 if q else 20) + sample(families.gen_flat, rng, 2 if q else 15)
-    specs += sample(families.gen_cascade, rng, 2 if q else 15)
+    specs += sample(hwfamily.gen_hw, rng, 2 if q else 20)
+    specs += sample(families.gen_occ, rng, 2 if q else 20) + sample(families.gen_shape, rng, 1 if q else 20) + sample(families.gen_flat, rng, 1 if q else 15)
+    specs += sample(families.gen_cascade, rng, 1 if q else 15)
     return specs
 
 
@@ -58,7 +58,7 @@ def run(tier, rep):
     rng = random.Random(seed() + 8)
     q = tier == "quick"
     specs = corpus(tier, rng)
-    nseeds, ntopo = (16, 8) if q else (128, 48)
+    nseeds, ntopo = (8, 4) if q else (128, 48)
     with workdir("C08") as wd:
         res = compile_variants(specs, wd, nseeds, ntopo)
         variants = {}
